@@ -652,7 +652,7 @@ def rule_codec(ctx: Ctx):
             r.ob("incremental" not in kws and args[:1] == ["encoding"] and len(args) == 1, lambda node=node: Finding(
                 "CD-1", "rxsci/container/json.py{%s}" % ast.unparse(node), jm.where(node),
                 "json files must be encoded/decoded incrementally with the encoding parameter; call: %s" % ast.unparse(node)))
-    if n < 2:
-        raise AnalysisError("json.py: encode/decode call sites not found")
+    r.ob(n >= 2, lambda: Finding("CD-1", "rxsci/container/json.py{codec-stages}", "rxsci/container/json.py:1",
+                                 "json files must go through rs.data.encode when written and rs.data.decode when read; %d such call(s) found" % n))
     r.require_instances(4)
     return r
